@@ -1212,7 +1212,10 @@ def _read_bipartite_kthlist(inputfile):
     """
     # vertex number
     parser = _kthlist_parse(inputfile)
-    size, name = next(parser)
+    try:
+        size, name = next(parser)
+    except StopIteration:
+        raise ValueError("Missing the number of vertices in the kthlist file.")
     bipartition_ambiguous = [1, size]
     edges = {}
 
@@ -1283,7 +1286,10 @@ def _read_nonbipartite_kthlist(inputfile, graph_class):
 
     # vertex number
     parser = _kthlist_parse(inputfile)
-    size, name = next(parser)
+    try:
+        size, name = next(parser)
+    except StopIteration:
+        raise ValueError("Missing the number of vertices in the kthlist file.")
     G = graph_class(size, name)
 
     previous = 0
